@@ -71,11 +71,15 @@ def run(ctx):
     out = ctx.run_and_validate(cachecomp.DRIVER, cachecomp.COMP, cachecomp.TRACE, scs, 'expiring_race', props=[],
                                nontrivial=lambda sc, r: True)
     for sc, r, v in out:
-        hit = v.get('C06')
-        if hit is not None:
-            ctx.cov['families']['expiring_race']['violating'] += 1
-            ctx.violation('C14', 'C14_ValueOfKey', hit[1], sc, r, 'expiring_race', cachecomp.DRIVER, known_match,
-                          cachecomp.COMP, cachecomp.TRACE, slot='C06')
+        # own-outcome clause -> "the value returned is always the one computed for that key";
+        # single-flight / once-done clause -> "two calls with equal arguments share one cache entry"
+        for slot, clause in (('C06', 'C14_ValueOfKey'), ('C01', 'C14_Shares')):
+            hit = v.get(slot)
+            if hit is not None:
+                ctx.cov['families']['expiring_race']['violating'] += 1
+                ctx.violation('C14', clause, hit[1], sc, r, 'expiring_race', cachecomp.DRIVER, known_match,
+                              cachecomp.COMP, cachecomp.TRACE, slot=slot)
+                break
     return ctx.finish(
         rule='TLC enumerates from KeysGen.tla all pairs of call signatures (positional tuples of length 0..2 over two '
              'equality classes, keyword lists of 0..2 distinct names in every order) and all call/evict sequences of '
